@@ -50,15 +50,18 @@ def make_source(st, key, fs):
 
 
 def dur_grid(duration, fs):
-    """Smallest integer d with duration*fs <= d (1e-6 sample slack for the float product):
-    for an integer sample distance n, `duration*fs > n` iff `d > n`."""
-    return int(math.ceil(duration * fs - 1e-6))
+    """Number of samples a trial of that duration occupies on the grid: round(duration*fs), the count a generator
+    emits for it (GateFactory: int(round(duration*fs))) and what the queue compares a pause position with."""
+    return int(round(duration * fs))
 
 
 def exact_dur(st):
-    """Exact duration of a stimulus in samples (a Fraction), independent of any float."""
+    """Number of samples the stimulus emits per trial (independent of any float of the library): the array length,
+    or round(len + frac) for the enveloped generator whose duration is (len + frac)/fs (frac is never a tie)."""
     from fractions import Fraction
-    return Fraction(st['len']) + (Fraction(str(st.get('frac', 0))) if st['src'] == 'cos2' else 0)
+    if st['src'] == 'cos2':
+        return int(round(Fraction(st['len']) + Fraction(str(st.get('frac', 0)))))
+    return st['len']
 
 
 def delay_samples(d, fs):
